@@ -1,7 +1,7 @@
 from vlib import runner, sysprops
 
 PARTIAL = [
-    'third clause (after a dispatch poll during which the transport stayed writable every abandoned, transmitted, unfinished call has its cancel on the wire): kept as def C03FullStatement, decided by the monitor on every implementation trace, not proved',
+    'third clause (cancel owed after a writable dispatch poll that goes idle): proved as C03_cancel_owed (Props/C03Full.lean) for scripts with pairwise distinct call bodies and caller-chosen span ids (how the monitor tells requests apart); the earlier form that also judged a *completing* dispatch was false on the model (C03_full_statement_readyOk_false) and was dropped from the monitor',
 ]
 
 
